@@ -15,6 +15,8 @@ with codecs.decode() of the whole input for every split.
 
 from __future__ import annotations
 
+from ..collect import guarded_async
+
 import codecs
 import functools
 import itertools as I
@@ -623,7 +625,7 @@ def run_shard(desc: dict, col) -> None:  # noqa: ANN001
     async def main() -> None:
         for i, case in enumerate(all_cases(desc["tier"], desc["seed"])):
             if i % desc["of"] == desc["shard"]:
-                await run_case(case, col)
+                await guarded_async(col, case, run_case, case, col)
 
     anyio.run(main)
 
@@ -632,7 +634,7 @@ def replay(case: dict, col) -> None:  # noqa: ANN001
     import anyio
 
     async def main() -> None:
-        await run_case(case, col)
+        await guarded_async(col, case, run_case, case, col)
 
     anyio.run(main)
 
